@@ -585,6 +585,10 @@ def rule_r8_directives(ctx: Ctx, rid: str = "C05.R8") -> None:
         ("@extent", [D("extent", None)], "reject"), ("@extent true", [D("extent", Bo(True))], "reject"), ("@extent 'x'", [D("extent", St("x"))], "reject"),
         ("@extent, @extent", [E(), E()], "reject"), ("@sealed, @extent", [S, E()], "reject"),
         ("@extent, field", [E(), F()], "reject"), ("@extent, constant", [E(), K()], "reject"), ("@extent, padding", [E(), P], "reject"),
+        # the smallest admissible extent is an extent like any other
+        ("@extent 0, field", [E(0), F()], "reject"), ("@extent 0, constant", [E(0), K()], "reject"), ("@extent 0, padding", [E(0), P], "reject"),
+        ("@extent 0, @extent", [E(0), E()], "reject"), ("@extent 0, @sealed", [E(0), S], "reject"), ("@sealed, @extent 0", [S, E(0)], "reject"),
+        ("response: @extent 0, constant", [S, M, E(0), K()], "reject"), ("response: @extent 0", [F(), S, M, E(0)], lambda o: o["kinds"] == ["StructureType", "StructureType", "DelimitedType", "ServiceType"] and o["extents"] == [0]),
     ], "@extent: needs a rational expression, at most one mode per schema, no attribute after it; the value becomes the declared extent")
     union = lambda o: o["kinds"] == ["UnionType"]  # noqa: E731
     table("@union", [
